@@ -43,6 +43,11 @@ ProofCopiesAgree ==
   /\ Proofs!ShapedP(tbl) = Shaped(tbl)
   /\ \A j \in 1..Len(tbl.samp) : Proofs!ColP(tbl, j) = Col(tbl, j)
   /\ \A o \in PermsOf(tbl.obs) : Proofs!SortObsP(tbl, o) = SortOrder(tbl, o, "observation")
+  /\ \A k \in 1..Len(tbl.obs) :
+        LET r == RowAt(tbl, "observation", k)
+            n == {<<"k1", "s", <<"new">>>>, <<"k9", "s", <<"v">>>>}
+        IN /\ Proofs!RowUpdateP(r, n) = RowUpdate(r, n) /\ Proofs!RowUpdateP(n, r) = RowUpdate(n, r)
+           /\ Proofs!RowDeleteP(r, {"k1"}) = RowDelete(r, {"k1"}) /\ Proofs!RowKeysP(r) = RowKeys(r)
   /\ \A u \in {tbl, Transpose(tbl), RemoveEmpty(tbl, "whole"), PA(tbl)} :
         Proofs!EqContentP(tbl, u) = EqContent(tbl, u) /\ Proofs!EqContentP(u, tbl) = EqContent(u, tbl)
   /\ \A n \in 0..3 : \A sq \in [1..n -> {"o1", "o2", "zz"}] :
